@@ -389,7 +389,8 @@ def check_fresh(case, ctx):
     for c in case["calls"]:
         a, kw = _prep(c["fn"], c["args"], c["kwargs"])
         kw = dict(kw)
-        kw["seed"] = int(c["seed"])
+        sd = c["seed"]
+        kw["seed"] = int(sd) if isinstance(sd, (int, np.integer)) else (tuple(sd) if isinstance(sd, list) else sd)
         calls.append((c["fn"], a, kw))
         o = ctx.call(getattr(bct, c["fn"]), *[_copy(x) for x in a], timeout=8.0, **{k: _copy(v) for k, v in kw.items()})
         if o.status == "timeout":
@@ -397,6 +398,7 @@ def check_fresh(case, ctx):
         here.append(("ok", fresh._norm(o.value)) if o.ok else ("exc", o.exc_name()))
         ctx.label("fresh:" + c["fn"])
     env = dict(os.environ)
+    env["PYTHONHASHSEED"] = "4242"         # another hash salt than the worker's: nothing seeded may depend on hash()
     env["PYTHONPATH"] = os.pathsep.join([os.path.dirname(os.path.dirname(os.path.dirname(os.path.abspath(__file__))))] + [p for p in env.get("PYTHONPATH", "").split(os.pathsep) if p])
     try:
         r = subprocess.run([sys.executable, "-m", "bctverif.fresh"], input=pickle.dumps(calls, protocol=4), capture_output=True, timeout=120, env=env)
@@ -415,8 +417,8 @@ def check_fresh(case, ctx):
         else:
             d = None
         if d:
-            fails.append(Failure("%s:result-depends-on-earlier-calls-in-the-process" % c["fn"],
-                                 "call %d of %d (seed %d): %s" % (t + 1, len(calls), c["seed"], d), case))
+            fails.append(Failure("%s:result-differs-from-fresh-interpreter" % c["fn"],
+                                 "call %d of %d (seed %r): %s" % (t + 1, len(calls), c["seed"], d), case))
             break
     if any(x[0] == "ok" for x in here):
         ctx.mark_nontrivial(case)
@@ -449,7 +451,8 @@ def cases_fresh(draw):
         for _ in range(draw(st.integers(2, 5))):
             fn = draw(st.sampled_from(MIXED_POOL + rewire.LATMIO))
             a, kw = draw(arg_strategy(fn))
-            calls.append({"fn": fn, "args": list(a), "kwargs": kw, "seed": draw(st.integers(0, 5))})
+            sd = draw(st.sampled_from([0, 1, 2, 3, "subject-07", 5, ["run", 3], 4.0]))
+            calls.append({"fn": fn, "args": list(a), "kwargs": kw, "seed": sd})
     return {"fn": "<fresh>", "calls": calls}
 
 
